@@ -187,7 +187,7 @@ Lemma no_panic_main (c : grp_cfg) (history : list gev) :
   snd (m_grun fixes_all c history) = None.
 Proof.
   intros Hadd H. apply m_grun_no_panic; [exact Hadd|].
-  apply Forall_forall. intros e He. destruct e as [m| | |]; cbn; try exact I.
+  apply Forall_forall. intros e He. destruct e as [m| | | |]; cbn; try exact I.
   split; [apply glue_stat_safe|exact (H m He)].
 Qed.
 
@@ -203,7 +203,7 @@ Proof.
   destruct (gtotal_amort fixes_all (glue_cf fixes_all) (glue_rf fixes_all) (glue_sf fixes_all) cfg_fixed c fixes_all_ok glue_cf_safe glue_rf_safe Hadd
               (10 + joins_count history) history grp_init) as (tot & E & Hle).
   - apply ginv_init.
-  - apply Forall_forall. intros e He. destruct e as [m| | |]; cbn; try exact I.
+  - apply Forall_forall. intros e He. destruct e as [m| | | |]; cbn; try exact I.
     split; [apply glue_stat_safe|exact (H m He)].
   - change (fan grp_init) with 8. lia.
   - exists tot. split; [exact E|].
